@@ -136,6 +136,11 @@ impl KBucket {
     }
 
     fn add_node(&mut self, node: NodeInfo) -> Result<()> {
+        // A peer is listed once: adding it again refreshes the existing entry.
+        if let Some(existing) = self.nodes.iter_mut().find(|n| n.id == node.id) {
+            *existing = node;
+            return Ok(());
+        }
         if self.nodes.len() < self.max_size {
             self.nodes.push(node);
             Ok(())
@@ -179,6 +184,10 @@ impl KademliaRoutingTable {
     }
 
     fn add_node(&mut self, node: NodeInfo) -> Result<()> {
+        // The local node never lists itself.
+        if node.id == self.node_id {
+            return Ok(());
+        }
         let bucket_index = self.get_bucket_index(&node.id);
         self.buckets[bucket_index].add_node(node)
     }
